@@ -648,6 +648,19 @@ def sizes_tok(spec):
     return " ".join("-" if (s is None or isinstance(s, tuple)) else str(s) for s in spec)
 
 
+def posted(ctx, what, detail, thunk):
+    """run the implementation on an input that is inside the property's quantifier; an exception there is
+    itself a failing input (the call cannot be satisfied although valid patterns exist)"""
+    r = vlib.guarded(thunk)
+    if r[0] == "ok":
+        return True, r[1]
+    d = dict(detail)
+    d["raised"] = r[1]
+    ctx.prop_case("raises", repr(sorted(d.items(), key=lambda kv: kv[0])))
+    ctx.violation("raises:%s:%s" % (what, r[1]), "a call with arguments inside the property's quantifier raises " + r[1], d)
+    return False, None
+
+
 def search(ctx):
     from cspuz import Solver, graph as cg
     rng = ctx.rng
@@ -682,7 +695,12 @@ def search(ctx):
         for nm, mk in forms:
             s = Solver()
             arg, spec, dom = mk(s)
-            ids = cg.division_connected_variable_groups(s, graph=graphcap.mk_graph(n, edges), group_size=arg)
+            ok, ids = posted(ctx, "vg-graph:%d:%s:%s" % (n, edges, nm),
+                             {"function": "division_connected_variable_groups", "n": n, "edges": edges, "form": nm,
+                              "group_size": [repr(x) for x in spec]},
+                             lambda: cg.division_connected_variable_groups(s, graph=graphcap.mk_graph(n, edges), group_size=arg))
+            if not ok:
+                continue
             zp = Z3Prog(s)
             zid = [zp.zv[v.id] for v in ids]
             for labels in parts:
@@ -712,10 +730,21 @@ def search(ctx):
             else:
                 spec = [rng.choice([None, None, rng.randint(1, n)]) for _ in range(n)]
                 arg = [spec[y * w:(y + 1) * w] for y in range(h)]
-            ids2 = cg.division_connected_variable_groups(s, shape=(h, w), group_size=arg) if nm != "rows" or rng.random() < 0.5 \
-                else cg.division_connected_variable_groups(s, group_size=arg)
+            with_shape = nm != "rows" or rng.random() < 0.5
+            ok, ids2 = posted(ctx, "vg-grid:%dx%d:%s" % (h, w, nm),
+                              {"function": "division_connected_variable_groups", "shape": [h, w], "form": nm,
+                               "shape_given": with_shape, "group_size": [repr(x) for x in spec]},
+                              lambda: (cg.division_connected_variable_groups(s, shape=(h, w), group_size=arg) if with_shape
+                                       else cg.division_connected_variable_groups(s, group_size=arg)))
+            if not ok:
+                continue
+            ok, zid = posted(ctx, "vg-grid-result:%dx%d:%s" % (h, w, nm),
+                             {"function": "division_connected_variable_groups", "shape": [h, w], "form": nm, "what": "result[y, x]"},
+                             lambda: [ids2[y, x].id for y in range(h) for x in range(w)])
+            if not ok:
+                continue
             zp = Z3Prog(s)
-            zid = [zp.zv[ids2[y, x].id] for y in range(h) for x in range(w)]
+            zid = [zp.zv[i] for i in zid]
             parts = list(set_partitions(n))
             if len(parts) > 80 and not thorough:
                 parts = rng.sample(parts, 80)
@@ -751,16 +780,24 @@ def search(ctx):
             s = Solver()
             bd = s.bool_array(m)
             arg, spec, dom = mk(s)
-            cg.division_connected_variable_groups_with_borders(
-                s, graph=graphcap.mk_graph(n, edges), group_size=arg, is_border=bd, use_graph_primitive=False)
+            det = {"function": "division_connected_variable_groups_with_borders", "n": n, "edges": edges, "form": nm,
+                   "group_size": [repr(x) for x in spec]}
+            ok, _ = posted(ctx, "wb-graph:%d:%s:%s" % (n, edges, nm), dict(det, use_graph_primitive=False),
+                           lambda: cg.division_connected_variable_groups_with_borders(
+                               s, graph=graphcap.mk_graph(n, edges), group_size=arg, is_border=bd, use_graph_primitive=False))
+            if not ok:
+                continue
             zp = Z3Prog(s)
             zb = [zp.zv[v.id] for v in bd]
             prim = None
             if not dom:
                 s2 = Solver()
                 bd2 = s2.bool_array(m)
-                cg.division_connected_variable_groups_with_borders(
-                    s2, graph=graphcap.mk_graph(n, edges), group_size=arg, is_border=bd2, use_graph_primitive=True)
+                ok, _ = posted(ctx, "wb-graph-prim:%d:%s:%s" % (n, edges, nm), dict(det, use_graph_primitive=True),
+                               lambda: cg.division_connected_variable_groups_with_borders(
+                                   s2, graph=graphcap.mk_graph(n, edges), group_size=arg, is_border=bd2, use_graph_primitive=True))
+                if not ok:
+                    continue
                 prim = exprio.show(s2.constraints[0]) if len(s2.constraints) == 1 else None
                 if prim is None:
                     ctx.violation("primitive-shape:%d:%s" % (n, edges), "the primitive route does not post exactly one constraint",
@@ -790,7 +827,12 @@ def search(ctx):
             from cspuz.array import IntArray2D
             size = s.int_array((h, w), 1, n)
             fr = BoolInnerGridFrame(s, h, w)
-            cg.division_connected_variable_groups_with_borders(s, group_size=size, is_border=fr, use_graph_primitive=False)
+            ok, _ = posted(ctx, "wb-frame:%dx%d" % (h, w),
+                           {"function": "division_connected_variable_groups_with_borders", "shape": [h, w],
+                            "group_size": "IntArray2D of fresh variables", "is_border": "BoolInnerGridFrame", "use_graph_primitive": False},
+                           lambda: cg.division_connected_variable_groups_with_borders(s, group_size=size, is_border=fr, use_graph_primitive=False))
+            if not ok:
+                continue
             for v in range(n):
                 if spec[v] is not None:
                     s.ensure(size[v // w, v % w] == spec[v])
@@ -805,7 +847,19 @@ def search(ctx):
             m = len(edges)
             zp = Z3Prog(s)
             zb = [zp.zv[v.id] for v in evars]
+            # the same frame through the primitive route: sizes as constants / None so that the node can be evaluated
+            s2 = Solver()
+            fr2 = BoolInnerGridFrame(s2, h, w)   # variable ids 0..m-1: horizontal rows, then vertical rows
+            ok, _ = posted(ctx, "wb-frame-prim:%dx%d" % (h, w),
+                           {"function": "division_connected_variable_groups_with_borders", "shape": [h, w],
+                            "group_size": [repr(x) for x in spec], "is_border": "BoolInnerGridFrame", "use_graph_primitive": True},
+                           lambda: cg.division_connected_variable_groups_with_borders(
+                               s2, group_size=IntArray2D(list(spec), (h, w)), is_border=fr2, use_graph_primitive=True))
+            prim = exprio.show(s2.constraints[0]) if ok and len(s2.constraints) == 1 else None
             for pat in graphcap.patterns(m):
+                if prim is not None:
+                    gd_reqs.append("GD %s %s" % (prim, " ".join("1" if b else "0" for b in pat)))
+                    gd_meta.append((("frame", h, w), edges, pat, spec, oracle_borders(n, edges, pat, spec, {})))
                 got = zp.check([zb[k] if pat[k] else zp.z3.Not(zb[k]) for k in range(m)])
                 want = oracle_borders(n, edges, pat, spec, {})
                 ctx.prop_case("borders-frame", (h, w, tuple(map(repr, spec)), pat))
@@ -820,7 +874,7 @@ def search(ctx):
     if model is not None and gd_reqs:
         outs = model.batch(gd_reqs)
         for (n, edges, pat, spec, want), o in zip(gd_meta, outs):
-            ctx.prop_case("borders-primitive", (n, tuple(edges), tuple(map(repr, spec)), pat))
+            ctx.prop_case("borders-primitive", (repr(n), tuple(edges), tuple(map(repr, spec)), pat))
             if (o == "1") != want:
                 ctx.violation("borders-primitive:%d:%s:%s:%s" % (n, edges, [repr(x) for x in spec], [int(b) for b in pat]),
                               "the GRAPH_DIVISION node posted by the primitive route, read with the operator's defined meaning, differs from the specification",
@@ -853,6 +907,38 @@ def replay(ctx, rp):
                 out.append(int(r)), spec.append(int(r))
         return out, spec, dom
     s = Solver()
+    if "raised" in d:
+        from cspuz.array import IntArray2D
+        from cspuz.grid_frame import BoolInnerGridFrame
+        f = d["function"]
+
+        def call():
+            if f == "division_connected_variable_groups" and "shape" in d:
+                if d.get("what"):
+                    r = cg.division_connected_variable_groups(s, shape=tuple(d["shape"]))
+                    return [r[y, x] for y in range(d["shape"][0]) for x in range(d["shape"][1])]
+                h, w = d["shape"]
+                arg, _, _ = parse_sizes(s, d["group_size"])
+                a = None if d["form"] == "none" else (arg[0] if d["form"] == "const" else [arg[y * w:(y + 1) * w] for y in range(h)])
+                return cg.division_connected_variable_groups(s, shape=(h, w), group_size=a) if d.get("shape_given", True) \
+                    else cg.division_connected_variable_groups(s, group_size=a)
+            if f == "division_connected_variable_groups":
+                arg, _, _ = parse_sizes(s, d["group_size"])
+                a = None if d["form"] == "none" else (arg[0] if d["form"].startswith(("const", "scalar")) else arg)
+                return cg.division_connected_variable_groups(s, graph=graphcap.mk_graph(d["n"], [tuple(e) for e in d["edges"]]), group_size=a)
+            if "shape" in d:
+                h, w = d["shape"]
+                size = s.int_array((h, w), 1, h * w) if isinstance(d["group_size"], str) else IntArray2D(parse_sizes(s, d["group_size"])[0], (h, w))
+                return cg.division_connected_variable_groups_with_borders(
+                    s, group_size=size, is_border=BoolInnerGridFrame(s, h, w), use_graph_primitive=d["use_graph_primitive"])
+            edges = [tuple(e) for e in d["edges"]]
+            arg, _, _ = parse_sizes(s, d["group_size"])
+            return cg.division_connected_variable_groups_with_borders(
+                s, graph=graphcap.mk_graph(d["n"], edges), group_size=(None if d["form"] == "none" else arg),
+                is_border=s.bool_array(len(edges)), use_graph_primitive=d["use_graph_primitive"])
+        r = vlib.guarded(call)
+        print("call outcome:", r[0], r[1] if r[0] == "err" else "")
+        return 1 if r[0] == "err" else 0
     if "partition" in d:
         if "shape" in d:
             h, w = d["shape"]
@@ -882,6 +968,39 @@ def replay(ctx, rp):
         pat = d["is_border"]
         got = zp.check([zp.zv[bd[k].id] if pat[k] else zp.z3.Not(zp.zv[bd[k].id]) for k in range(len(edges))])
         want = oracle_borders(n, edges, pat, spec, dom)
+    elif "is_border" in d and "shape" in d:
+        from cspuz.grid_frame import BoolInnerGridFrame
+        h, w = d["shape"]
+        n = h * w
+        _, spec, dom = parse_sizes(s, d["group_size"])
+        size = s.int_array((h, w), 1, n)
+        fr = BoolInnerGridFrame(s, h, w)
+        cg.division_connected_variable_groups_with_borders(s, group_size=size, is_border=fr, use_graph_primitive=False)
+        for v in range(n):
+            if spec[v] is not None:
+                s.ensure(size[v // w, v % w] == spec[v])
+        evars, edges = [], []
+        for y in range(h - 1):
+            for x in range(w):
+                evars.append(fr.horizontal[y, x]), edges.append((y * w + x, (y + 1) * w + x))
+        for y in range(h):
+            for x in range(w - 1):
+                evars.append(fr.vertical[y, x]), edges.append((y * w + x, y * w + x + 1))
+        zp = Z3Prog(s)
+        pat = d["is_border"]
+        got = zp.check([zp.zv[evars[k].id] if pat[k] else zp.z3.Not(zp.zv[evars[k].id]) for k in range(len(edges))])
+        want = oracle_borders(n, edges, pat, spec, dom)
+    elif "operator_on_posted_operands" in d:
+        n, edges = d["n"], [tuple(e) for e in d["edges"]]
+        if not isinstance(n, int):
+            print("frame form of the primitive route: re-run ./check C07")
+            return 0
+        arg, spec, dom = parse_sizes(s, d["group_size"])
+        bd = s.bool_array(len(edges))
+        cg.division_connected_variable_groups_with_borders(s, graph=graphcap.mk_graph(n, edges), group_size=arg, is_border=bd, use_graph_primitive=True)
+        pat = d["is_border"]
+        o = ctx.model("C07").call("GD %s %s" % (exprio.show(s.constraints[0]), " ".join(str(int(b)) for b in pat)))
+        got, want = (o == "1"), oracle_borders(n, edges, pat, spec, dom)
     else:
         return 0
     print("posted program sat:", got, " specification:", want)
